@@ -114,7 +114,11 @@ JudgeWR(r) ==
        base == IF r.what = "w" THEN JudgeW(d) ELSE JudgeRS(d) IN
    IF d = v THEN [i \in 1..Len(base) |-> IF base[i][1] = "ok" THEN <<"ok", "route:" \o r.what \o ":" \o r.be, base[i][Len(base[i])]>> ELSE base[i]]
    ELSE << <<"BAD", "route", r.be, r.what, IF d.open # v.open THEN "open" ELSE FirstDiff(d.res, v.res)>> >>
-Judge(r) == CASE r.k = "rs" -> JudgeRS(r) [] r.k = "w" -> JudgeW(r) [] r.k = "w2" -> JudgeW2(r) [] r.k = "wr" -> JudgeWR(r)
+\* flush under contention: every (write .. flush, read back) of a thread's own file shows exactly what was written so far
+JudgeWC(r) == IF \E i \in 1..Len(r.pairs) : r.pairs[i].ok = "panic" THEN << <<"BAD", "wc", r.be, "panic">> >>
+              ELSE IF \E i \in 1..Len(r.pairs) : r.pairs[i].ok # "t" THEN << <<"BAD", "wc", r.be, "flush-returned-ok-but-the-data-is-not-visible">> >>
+              ELSE << <<"ok", "wc:" \o r.be, "nt">> >>
+Judge(r) == CASE r.k = "wc" -> JudgeWC(r) [] r.k = "rs" -> JudgeRS(r) [] r.k = "w" -> JudgeW(r) [] r.k = "w2" -> JudgeW2(r) [] r.k = "wr" -> JudgeWR(r)
 
 VARIABLES l
 Init == l = 1 /\ TLCSet(1, <<>>)
